@@ -22,11 +22,11 @@ ASSUME = [
     "3-5 environment stimuli per behaviour",
 ]
 
-MC_LINES = ["SPECIFICATION Spec", "INVARIANTS MonOK QuiesceOK RedialOK ServicesOK", "PROPERTY ProtocolsBeforeManager",
+MC_LINES = ["SPECIFICATION Spec", "INVARIANTS MonOK QuiesceOK RedialOK ServicesOK NoKf", "PROPERTY ProtocolsBeforeManager",
             "VIEW View", "CHECK_DEADLOCK FALSE"]
 BASE = {"Sim": True, "Q": {"q1", "q2"}, "QD": {"q3"}, "MaxCid": 2, "Cap": 1, "MCap": 1, "MaxStim": 3, "MaxSub": 1,
-        "Fixed": "<- NoFix", "Mutant": ""}
-ALLFIX = "<- AllFix"
+        "Fixed": "<- AllFix", "Mutant": ""}
+NOFIX = "<- NoFix"
 
 # reason -> short tag used in signatures
 SILENT = ("silence: application never told that the connection closed", "silence: running protocol never told that the connection closed")
@@ -34,24 +34,21 @@ NEWCONN = ("new connection not reported to the application", "new connection not
 
 
 def mc_runs(ctx):
+    """the model follows the repaired code (Fixed = AllFix): no defect path exists (NoKf) and every rule holds"""
     if ctx.quick():
         runs = [("dead", dict(BASE, Q={"q1"}, MaxCid=3, MaxStim=3, Cap=2)),
                 ("two", dict(BASE, QD=set(), MaxCid=3, MaxStim=4)),
-                ("fixed", dict(BASE, Q={"q1"}, MaxCid=2, MaxStim=3, Fixed=ALLFIX))]
+                ("dead2", dict(BASE, Q={"q1"}, MaxCid=2, MaxStim=4))]
     else:
         runs = [("dead", dict(BASE, Q={"q1"}, MaxCid=3, MaxStim=5, Cap=2)),
                 ("two", dict(BASE, QD=set(), MaxCid=3, MaxStim=5)),
-                ("full", dict(BASE, MaxCid=2, MaxStim=4)),
-                ("fixed", dict(BASE, Q={"q1"}, MaxCid=3, MaxStim=5, Fixed=ALLFIX))]
+                ("full", dict(BASE, MaxCid=2, MaxStim=4))]
     out = []
     for name, consts in runs:
-        lines = list(MC_LINES)
-        if name == "fixed":
-            lines[1] += " NoKf"      # with both repairs no defect path exists and every rule holds
-        r = tlc_mc(ctx, "ConnLifeNetMC.tla", write_cfg(ctx, "mc_%s.cfg" % name, consts, lines), workers=6 if ctx.quick() else 10, timeout=2400)
+        r = tlc_mc(ctx, "ConnLifeNetMC.tla", write_cfg(ctx, "mc_%s.cfg" % name, consts, MC_LINES), workers=6 if ctx.quick() else 10, timeout=2400)
         if not r["ok"]:
-            raise ToolError("ConnLifeNetMC violates a C07 rule outside the tagged defect paths in config %s (model error or "
-                            "design finding to be replayed, never a code verdict):\n%s" % (name, r.get("error", r["out"][-3000:])))
+            raise ToolError("ConnLifeNetMC violates a C07 rule in config %s (model error or design finding to be replayed, "
+                            "never a code verdict):\n%s" % (name, r.get("error", r["out"][-3000:])))
         out.append(dict({k: r[k] for k in ("transitions", "distinct", "depth", "wall_s") if k in r}, cfg=name))
         log("MC %s: %s" % (name, out[-1]))
     return out
@@ -322,15 +319,19 @@ def selftest(ctx):
     # (b) negative models: a seeded bug must violate the stated rule; the unrepaired model must reach the defect paths
     small = dict(BASE, Q={"q1"}, MaxCid=2, MaxStim=4)
     for name, consts, inv, expect in [
-        ("defects-reachable", dict(small), "NoKf", "NoKf"),
+        # the unrepaired code paths (the original tree) must break the monitor in the model
+        ("unrepaired-error-exit", dict(small, Fixed="<- OnlyMapFix"), "MonStrict QuiesceStrict", "Strict"),
+        ("unrepaired-protocol-map", dict(small, Fixed="<- OnlyExitFix"), "MonStrict QuiesceStrict", "MonStrict"),
+        ("unrepaired-defect-paths-tagged", dict(small, Fixed=NOFIX), "", "NoKf"),
         ("mgr-first", dict(small, Mutant="mgr-first"), "", "ProtocolsBeforeManager"),
         ("stop-on-proto-error", dict(small, Mutant="stop-on-proto-error"), "", "QuiesceOK"),
         ("close-any", dict(small, Mutant="close-any"), "", "MonOK"),
     ]:
         lines = list(MC_LINES)
-        lines[1] += " " + inv
+        if inv:
+            lines[1] = "INVARIANTS " + inv
         r = tlc_mc(ctx, "ConnLifeNetMC.tla", write_cfg(ctx, "neg_%s.cfg" % name, consts, lines), workers=6, expect_violation=True, timeout=900)
-        hit = ("%s is violated" % expect) in r["out"]
+        hit = bool(__import__("re").search(r"%s\w* is violated" % expect, r["out"]))
         log("selftest model %s -> %s" % (name, "violates %s as required" % expect if hit else "NOT DETECTED"))
         ok &= hit
     # (a) binding: corrupt good recorded executions
